@@ -1,5 +1,6 @@
 import Pycoin.Driver.Core
 import Pycoin.DriverLib.TxText
+import Pycoin.DriverLib.History
 import Pycoin.Model.TxCheck
 namespace Pycoin.Driver.C20
 open Pycoin Pycoin.Driver Pycoin.DriverLib Pycoin.TxCheck
@@ -30,6 +31,7 @@ def handle : Handler := fun op args =>
     let _ ← parseCoin? c
     let tx ← parseTx? tx
     some s!"ok {badSolutionCount tx (fun _ => false)}"
+  | "check_hist", [c, tx, steps] => histOp c tx steps
   | _, _ => none
 
 end Pycoin.Driver.C20
